@@ -393,6 +393,13 @@ fn svc_strategy(big: bool) -> BoxedStrategy<SvcCase> {
             1 => Just("".to_string()),
             1 => Just("-1".to_string()),
             1 => Just("1e1".to_string()),
+            // every other size a peer can name: just above the bound, around the powers of two
+            // (where a multiplication by 2^20 leaves u32 / u64), anywhere in u32 / u64, longer
+            2 => (101u64..5000).prop_map(|n| n.to_string()),
+            3 => (7u32..=65, -1i64..=1).prop_map(|(k, d)| ((1u128 << k) as i128 + d as i128).to_string()),
+            1 => any::<u32>().prop_map(|n| n.to_string()),
+            1 => any::<u64>().prop_map(|n| n.to_string()),
+            1 => "[1-9][0-9]{19,30}",
         ]
         .boxed()
     };
@@ -483,7 +490,7 @@ impl Suite for ServiceSuite {
         if self.big {
             "speedtest at the documented bounds: downloads of 37, 99 and 100 MiB, uploads of 64 MiB, 120 MiB - 1 and 120 MiB, on a speedtest host and under /speed/ on the main host, HTTP/1.1 and HTTP/2, fast and slow readers; same oracle; every case non-trivial".into()
         } else {
-            "requests on a ping host, on the main host with a ping marker (x-ping: 1 / sec-fetch-mode: navigate; also on paths under /speed/ and under the reverse proxy's /api), on a speedtest host and under /speed/ on the main host, over HTTP/1.1 and HTTP/2 in memory with an authenticator configured and no credentials sent: GET /Nmb.bin with N in {1,2,3,0,101,2^32,2^32+1,007,+5,1.5,'',-1,1e1}, POST /upload.html with Content-Length in {1..3e6, 120 MiB+1, 2^32+1, abc, absent, 0}, other methods and paths; client reads fast or with pauses (small HTTP/2 windows), or stalls for 5 s in the middle of a transfer while the session's idle timeout is 2 s (a running test must keep the session alive); oracle: ping => 200, zero body bytes, no forwarder call; canonical 1 <= N <= 100 => 200 and exactly N x 2^20 zero bytes; accepted upload => no response before the last body byte, then 200; everything else 400 (non-canonical spellings of in-range numbers and L = 0 are don't-care); never 407; non-trivial = N or L at or beyond a bound, or a marker on the main host".into()
+            "requests on a ping host, on the main host with a ping marker (x-ping: 1 / sec-fetch-mode: navigate; also on paths under /speed/ and under the reverse proxy's /api), on a speedtest host and under /speed/ on the main host, over HTTP/1.1 and HTTP/2 in memory with an authenticator configured and no credentials sent: GET /Nmb.bin with N in {1,2,3,0,101,2^32,2^32+1,007,+5,1.5,'',-1,1e1} or generated (101..5000, 2^k-1 / 2^k / 2^k+1 for k = 7..65, any u32, any u64, 20-31 digits), POST /upload.html with Content-Length in {1..3e6, 120 MiB+1, 2^32+1, abc, absent, 0}, other methods and paths; client reads fast or with pauses (small HTTP/2 windows), or stalls for 5 s in the middle of a transfer while the session's idle timeout is 2 s (a running test must keep the session alive); oracle: ping => 200, zero body bytes, no forwarder call; canonical 1 <= N <= 100 => 200 and exactly N x 2^20 zero bytes; accepted upload => no response before the last body byte, then 200; everything else 400 (non-canonical spellings of in-range numbers and L = 0 are don't-care); never 407; non-trivial = N or L at or beyond a bound, or a marker on the main host".into()
         }
     }
     fn strategy(&self, _: Tier) -> BoxedStrategy<SvcCase> {
